@@ -8,41 +8,139 @@
 (* in  F + k*H  (the single-regularization fast path adds H IN PLACE into  *)
 (* the buffer that holds the curvature matrix and evicts the cache entry); *)
 (* every other quantity is "ok" (equal to the fresh computation) or        *)
-(* derived from a curvature buffer and then carries its k.                 *)
+(* derived from a curvature buffer and then carries its k; k = -1 stands   *)
+(* for "differs from the fresh computation in another way".                *)
 (*                                                                         *)
-(* CopyOnUse is the defensive copy of the preloaded curvature matrix.      *)
-(* With CopyOnUse = FALSE TLC shows the second inversion reading F+H as F. *)
+(* Ten public slots.  Five PRIMARY ones hold a whole quantity.  Five       *)
+(* SECONDARY ones hold a PART of a quantity (the mapper part of the data   *)
+(* vector, the mapper diagonal blocks of the curvature matrix, the         *)
+(* operated mapping matrices of the mappers / of the function lists, the   *)
+(* function-list x data term of the mapper x function-list blocks): which  *)
+(* part of which output they feed depends on the formalism and on the      *)
+(* make-up of the linear-object list (section "data flow").  The slots     *)
+(* relocated_grid, mapper_list, image_plane_mesh_grid_pg_list,             *)
+(* traced_mesh_grids_list_of_planes, image_plane_mesh_grid_list are        *)
+(* consumed outside the inversions and are not part of this machine.       *)
+(*                                                                         *)
+(* Design switches (TRUE = the design; FALSE gives TLC's counterexample):  *)
+(*   CopyOnUse          the defensive copy of the preloaded curvature      *)
+(*                      matrix (FALSE: the second inversion reads F+H as F)*)
+(*   CopySecondary      a secondary array is copied before the parts of    *)
+(*                      the other linear objects are written next to it    *)
+(*                      (FALSE: the preloaded buffer is written in place)  *)
+(*   EmbedMapperVector  the mapper data vector is the whole data vector    *)
+(*                      only when every linear object is a mapper (FALSE:  *)
+(*                      the entries of the function lists are lost)        *)
 (***************************************************************************)
 EXTENDS Integers, Sequences, FiniteSets, TLC, Json
 
-CONSTANTS Slots,        \* the public preload slots, a subset of AllSlots
-          CopyOnUse,    \* BOOLEAN
-          MaxRuns,      \* number of successive inversions sharing one Preloads object
-          MaxReads,     \* reads per inversion explored
-          SingleReg     \* BOOLEAN: exactly one linear object (the in-place F += H path) or several (np.add)
+CONSTANTS Slots,             \* the public preload slots explored, a subset of AllSlots
+          MakeUps,           \* make-ups explored: records [f, nm, nf, ov] (see below)
+          CopyOnUse,         \* BOOLEAN
+          CopySecondary,     \* BOOLEAN
+          EmbedMapperVector, \* BOOLEAN
+          MaxRuns,           \* number of successive inversions sharing one Preloads object
+          MaxReads,          \* reads per inversion explored
+          ReadSet,           \* the quantities a read may ask for (Quantities, or one representative per class of equal dynamics)
+          DumpInstances,     \* BOOLEAN: print every initial state (the instances the driver realises)
+          KeepHistory        \* BOOLEAN: record the actions in hist (for simulated behaviours; hidden by VIEW)
 
-AllSlots == {"w_tilde", "curvature_matrix", "regularization_matrix", "log_det_regularization_matrix_term", "operated_mapping_matrix"}
+PrimarySlots == {"w_tilde", "curvature_matrix", "regularization_matrix", "log_det_regularization_matrix_term", "operated_mapping_matrix"}
+SecondarySeq == << "data_vector_mapper", "curvature_matrix_mapper_diag", "mapper_operated_mapping_matrix_dict",
+                   "linear_func_operated_mapping_matrix_dict", "data_linear_func_matrix_dict" >>
+SecondarySlots == { SecondarySeq[j] : j \in DOMAIN SecondarySeq }
+AllSlots == PrimarySlots \cup SecondarySlots
 Quantities == {"data_vector", "curvature_matrix", "regularization_matrix", "curvature_reg_matrix", "reconstruction",
                "mapped_reconstructed_data", "regularization_term", "log_det_curvature_reg_matrix_term",
                "log_det_regularization_matrix_term", "operated_mapping_matrix"}
 
+\* quantities whose evaluation needs F + H, the data vector, the curvature matrix
+RegQs == {"curvature_reg_matrix", "reconstruction", "mapped_reconstructed_data", "regularization_term", "log_det_curvature_reg_matrix_term"}
+NeedsDV == {"data_vector", "reconstruction", "mapped_reconstructed_data", "regularization_term"}
+NeedsCM == {"curvature_matrix"} \cup RegQs
+PlainQs == Quantities \ (RegQs \cup {"curvature_matrix", "data_vector"})
+\* one quantity per class of equal model dynamics (the classes differ in: F read / F + H needed / data vector needed)
+ClassRepresentatives == {"curvature_matrix", "data_vector", "curvature_reg_matrix", "reconstruction", "regularization_matrix"}
+
+-----------------------------------------------------------------------------
+(* make-up of an inversion: f = formalism asked for in the settings, nm / nf = number of mappers / of linear function lists,
+   ov = some function list brings its own operated mapping matrix *)
+AllMakeUps == [f : {"mapping", "w_tilde"}, nm : 0..2, nf : 0..2, ov : BOOLEAN]
+WT(m) == m.f = "w_tilde" /\ m.nm > 0          \* the factory solves a list of function lists only by the mapping formalism
+Single(m) == m.nm + m.nf = 1                  \* exactly one linear object: the in-place F += H path (else np.add)
+
+\* a reference inversion of this make-up has something to put into the slot (None otherwise: the slot stays empty)
+Present(s, m) == s \in {"data_vector_mapper", "curvature_matrix_mapper_diag"} => m.nm > 0
+Eff(F, m) == { s \in F : Present(s, m) }
+
+(* data flow, structured like the code: the filled slots whose content flows into a fresh evaluation of a quantity.
+   F = effectively filled slots, m = make-up.  A slot outside Feeds(q, m, F) is invisible to q. *)
+Has(s, F) == IF s \in F THEN {s} ELSE {}
+FeedsOMM(m, F) == IF "operated_mapping_matrix" \in F THEN {"operated_mapping_matrix"}
+                  ELSE IF m.ov THEN Has("linear_func_operated_mapping_matrix_dict", F) ELSE {}   \* only objects with an own operated matrix are looked up
+FeedsOML(m, F) == IF m.ov THEN Has("linear_func_operated_mapping_matrix_dict", F) ELSE {}         \* the per-object list never uses the stacked slot
+FeedsDV(m, F) ==
+  IF WT(m)
+  THEN IF m.nf > 0 THEN Has("data_vector_mapper", F) \cup Has("linear_func_operated_mapping_matrix_dict", F)   \* mapper part embedded, function entries computed
+       ELSE Has("data_vector_mapper", F)
+  ELSE IF "data_vector_mapper" \in F /\ m.nf = 0 THEN {"data_vector_mapper"}         \* the whole vector only if every object is a mapper
+       ELSE FeedsOMM(m, F)
+FeedsCM(m, F) ==
+  IF "curvature_matrix" \in F THEN {"curvature_matrix"}
+  ELSE IF ~ WT(m) THEN FeedsOMM(m, F)
+  ELSE (IF "curvature_matrix_mapper_diag" \in F THEN {"curvature_matrix_mapper_diag"} ELSE Has("w_tilde", F))      \* mapper diagonal blocks
+       \cup (IF m.nm > 1 THEN Has("w_tilde", F) ELSE {})                                                           \* mapper x mapper blocks
+       \cup (IF m.nf = 0 THEN {}
+             ELSE Has("linear_func_operated_mapping_matrix_dict", F) \cup                                          \* function x function blocks
+                  (IF "data_linear_func_matrix_dict" \in F THEN {"data_linear_func_matrix_dict"}                   \* mapper x function blocks
+                   ELSE Has("mapper_operated_mapping_matrix_dict", F)))
+FeedsRM(m, F) == Has("regularization_matrix", F)
+Feeds(q, m, F) ==
+  CASE q = "data_vector" -> FeedsDV(m, F)
+    [] q = "curvature_matrix" -> FeedsCM(m, F)
+    [] q = "regularization_matrix" -> FeedsRM(m, F)
+    [] q = "operated_mapping_matrix" -> FeedsOMM(m, F)
+    [] q = "log_det_regularization_matrix_term" ->
+         IF "log_det_regularization_matrix_term" \in F THEN {"log_det_regularization_matrix_term"} ELSE FeedsRM(m, F)
+    [] q \in {"curvature_reg_matrix", "log_det_curvature_reg_matrix_term"} -> FeedsCM(m, F) \cup FeedsRM(m, F)
+    [] q \in {"reconstruction", "regularization_term"} -> FeedsDV(m, F) \cup FeedsCM(m, F) \cup FeedsRM(m, F)
+    [] q = "mapped_reconstructed_data" ->
+         FeedsDV(m, F) \cup FeedsCM(m, F) \cup FeedsRM(m, F)
+         \cup (IF WT(m) THEN (IF m.nf > 0 THEN Has("linear_func_operated_mapping_matrix_dict", F) ELSE {}) ELSE FeedsOML(m, F))
+    [] OTHER -> {}
+
+\* secondary arrays next to which the evaluation of q writes the parts of the other linear objects (w-tilde formalism only)
+Embeds(q, m, F) ==
+  (IF q \in NeedsDV /\ WT(m) /\ m.nf > 0 /\ "data_vector_mapper" \in F THEN {"data_vector_mapper"} ELSE {})
+  \cup (IF q \in NeedsCM /\ WT(m) /\ (m.nm > 1 \/ m.nf > 0) /\ "curvature_matrix_mapper_diag" \in FeedsCM(m, F)
+        THEN {"curvature_matrix_mapper_diag"} ELSE {})
+
+\* does the data vector lose the entries of the function lists (only without the embedding rule)?
+DataVectorTruncated(m, F) == ~ EmbedMapperVector /\ ~ WT(m) /\ m.nf > 0 /\ "data_vector_mapper" \in F
+
+-----------------------------------------------------------------------------
 VARIABLES filled,   \* subset of Slots that the shared Preloads object has filled (from a reference inversion)
+          mk,       \* make-up of the inversions (identical inputs: the same for the reference and every run)
           preK,     \* multiplicity k of the preloaded curvature buffer (0 = pristine F)
+          dirty,    \* secondary slots whose preloaded buffer was written to
           run,      \* index of the current inversion (0 = none yet)
           cache,    \* current inversion: cached quantity -> k of its buffer (only curvature-like ones matter)
           alias,    \* current inversion: does its cached curvature_matrix alias the preloaded buffer?
           nreads,   \* reads done on the current inversion
           out,      \* last read: [q, k] (k = multiplicity reported, relative to what a fresh inversion reports)
           hist      \* history of actions (hidden by VIEW)
-vars == << filled, preK, run, cache, alias, nreads, out, hist >>
-view == << filled, preK, run, cache, alias, nreads, out >>
+vars == << filled, mk, preK, dirty, run, cache, alias, nreads, out, hist >>
+view == << filled, mk, preK, dirty, run, cache, alias, nreads, out.k >>
 
 NoCache == [q \in {} |-> 0]
+EF == Eff(filled, mk)
 
 Init == /\ filled \in SUBSET Slots
-        /\ preK = 0 /\ run = 0 /\ cache = NoCache /\ alias = FALSE /\ nreads = 0
+        /\ mk \in MakeUps
+        /\ preK = 0 /\ dirty = {} /\ run = 0 /\ cache = NoCache /\ alias = FALSE /\ nreads = 0
         /\ out = [q |-> "none", k |-> 0]
-        /\ hist = << [a |-> "Preloads", filled |-> filled] >>
+        /\ hist = IF KeepHistory THEN << [a |-> "Preloads", filled |-> filled, mk |-> mk] >> ELSE << >>
+        /\ (DumpInstances => PrintT(ToJson([k |-> "inst", filled |-> filled, mk |-> mk])))
 
 \* a new inversion on identical inputs with the same Preloads object
 NewInversion ==
@@ -50,8 +148,8 @@ NewInversion ==
   /\ (run = 0 \/ nreads > 0)
   /\ run' = run + 1 /\ cache' = NoCache /\ alias' = FALSE /\ nreads' = 0
   /\ out' = [q |-> "new", k |-> 0]
-  /\ hist' = Append(hist, [a |-> "NewInversion"])
-  /\ UNCHANGED << filled, preK >>
+  /\ hist' = IF KeepHistory THEN Append(hist, [a |-> "NewInversion"]) ELSE hist
+  /\ UNCHANGED << filled, mk, preK, dirty >>
 
 \* --- the dependency structure of the cached properties (what a read computes transitively) ---
 \* curvature_matrix: from the cache, else from the preload slot (copied or aliased), else computed afresh (k = 0)
@@ -66,17 +164,23 @@ AfterCurv(c) == IF "curvature_matrix" \in DOMAIN c THEN c ELSE c @@ [q \in {"cur
 \* curvature_reg_matrix: cached, else F (+) H.  Single regularization: in place on the curvature buffer, which is evicted.
 RegK == IF "curvature_reg_matrix" \in DOMAIN cache THEN cache["curvature_reg_matrix"] ELSE CurvK + 1
 
+\* the secondary buffers written in place by this read (none under the design; the curvature part only if F is evaluated now)
+Written(q, evaluatesF) ==
+  IF CopySecondary THEN {}
+  ELSE { s \in Embeds(q, mk, EF) : s = "curvature_matrix_mapper_diag" => evaluatesF }
+
 ReadCurvature ==
   /\ cache' = AfterCurv(cache)
   /\ alias' = CurvAliases
   /\ out' = [q |-> "curvature_matrix", k |-> CurvK]
+  /\ dirty' = dirty \cup Written("curvature_matrix", "curvature_matrix" \notin DOMAIN cache)
   /\ UNCHANGED preK
 
 \* any quantity that needs F + H (curvature_reg_matrix itself, reconstruction, mapped data, reg term, log det of F+H)
 ReadNeedsReg(q) ==
   /\ IF "curvature_reg_matrix" \in DOMAIN cache
      THEN /\ cache' = cache /\ alias' = alias /\ UNCHANGED preK
-     ELSE IF SingleReg
+     ELSE IF Single(mk)
           THEN \* in place: the curvature buffer becomes F+H and leaves the cache; if it aliased the preload, that changed too
                /\ cache' = [x \in (DOMAIN cache \ {"curvature_matrix"}) \cup {"curvature_reg_matrix"} |->
                                IF x = "curvature_reg_matrix" THEN CurvK + 1 ELSE cache[x]]
@@ -85,24 +189,33 @@ ReadNeedsReg(q) ==
           ELSE /\ cache' = AfterCurv(cache) @@ [x \in {"curvature_reg_matrix"} |-> CurvK + 1]
                /\ alias' = CurvAliases
                /\ UNCHANGED preK
-  /\ out' = [q |-> q, k |-> RegK - 1]      \* 0 iff the value is what a fresh inversion reports
+  /\ dirty' = dirty \cup Written(q, DOMAIN cache \cap {"curvature_matrix", "curvature_reg_matrix"} = {})
+  /\ out' = [q |-> q, k |-> IF q \in NeedsDV /\ DataVectorTruncated(mk, EF) THEN -1
+                            ELSE RegK - 1]      \* 0 iff the value is what a fresh inversion reports
+
+\* the data vector: served from the mapper slot (whole or embedded), from the operated mapping matrix, or computed
+ReadDataVector ==
+  /\ out' = [q |-> "data_vector", k |-> IF DataVectorTruncated(mk, EF) THEN -1 ELSE 0]
+  /\ dirty' = dirty \cup Written("data_vector", FALSE)
+  /\ UNCHANGED << cache, alias, preK >>
 
 \* quantities independent of the curvature buffers (served from slots or computed; never modified in place)
 ReadPlain(q) ==
   /\ out' = [q |-> q, k |-> 0]
-  /\ UNCHANGED << cache, alias, preK >>
+  /\ UNCHANGED << cache, alias, preK, dirty >>
 
-Read(q) ==
-  /\ run > 0 /\ nreads < MaxReads
-  /\ CASE q = "curvature_matrix" -> ReadCurvature
-       [] q \in {"curvature_reg_matrix", "reconstruction", "mapped_reconstructed_data", "regularization_term",
-                 "log_det_curvature_reg_matrix_term"} -> ReadNeedsReg(q)
-       [] OTHER -> ReadPlain(q)
-  /\ nreads' = nreads + 1
-  /\ hist' = Append(hist, [a |-> "Read", q |-> q])
-  /\ UNCHANGED << filled, run >>
+\* --- the named actions of the bounded machine ---
+CanRead == run > 0 /\ nreads < MaxReads
+Done(q) == /\ nreads' = nreads + 1
+           /\ hist' = IF KeepHistory THEN Append(hist, [a |-> "Read", q |-> q]) ELSE hist
+           /\ UNCHANGED << filled, mk, run >>
 
-Next == NewInversion \/ \E q \in Quantities : Read(q)
+ReadCurvatureMatrix == CanRead /\ "curvature_matrix" \in ReadSet /\ ReadCurvature /\ Done("curvature_matrix")
+ReadRegDependent == CanRead /\ \E q \in RegQs \cap ReadSet : ReadNeedsReg(q) /\ Done(q)
+ReadTheDataVector == CanRead /\ "data_vector" \in ReadSet /\ ReadDataVector /\ Done("data_vector")
+ReadPlainQuantity == CanRead /\ \E q \in PlainQs \cap ReadSet : ReadPlain(q) /\ Done(q)
+
+Next == NewInversion \/ ReadCurvatureMatrix \/ ReadRegDependent \/ ReadTheDataVector \/ ReadPlainQuantity
 Spec == Init /\ [][Next]_vars
 
 -----------------------------------------------------------------------------
@@ -111,7 +224,15 @@ Spec == Init /\ [][Next]_vars
 OutputsEqualFresh == out.k = 0
 \* a preloaded curvature matrix is never changed by the inversions that use it
 PreloadBuffersNeverChange == preK = 0
-\* ... for any number of successive inversions (the two invariants above hold in every state with run <= MaxRuns)
+\* ... nor is the buffer of any secondary slot
+SecondarySlotBuffersNeverChange == dirty = {}
+\* ... for any number of successive inversions (the invariants above hold in every state with run <= MaxRuns)
 \* a cached curvature matrix is always the curvature matrix
 CachedCurvatureIsCurvature == "curvature_matrix" \in DOMAIN cache => cache["curvature_matrix"] = 0
+\* the data flow only ever names filled slots that have content: a slot without content for this make-up, or outside
+\* Feeds(q, ..) for every q, is invisible (checked once, for every subset and make-up explored)
+ASSUME FeedsOnlyFilledSlots ==
+  \A m \in MakeUps : \A F \in SUBSET Slots : \A q \in Quantities :
+     Feeds(q, m, Eff(F, m)) \subseteq Eff(F, m) /\ Embeds(q, m, Eff(F, m)) \subseteq Eff(F, m) \cap SecondarySlots
+TypeOK == filled \subseteq AllSlots /\ mk \in AllMakeUps /\ dirty \subseteq SecondarySlots
 =============================================================================
